@@ -1,6 +1,7 @@
 package syncer
 
 import (
+	"os"
 	"encoding/json"
 	"fmt"
 	"strings"
@@ -83,15 +84,20 @@ func crashPlans(check, tier string) []crashPlan {
 				{alpha, 2, crashConfigs("all"), 1, 1, 2, []string{"s0"}},
 				{alpha, 2, crashConfigs(""), 2, 2, 1, []string{"s0"}},
 				{[]string{"w1", "s1", "s0", "s2"}, 4, crashConfigs("db"), 1, 1, 1, []string{"s0"}},
+				{[]string{"w1", "sb", "p", "s0", "s1"}, 4, crashConfigs("db"), 1, 1, 1, []string{"s0"}},
 			}
 		}
 		return []crashPlan{
-			{[]string{"w1", "df", "s1", "s0", "t2", "ts", "p"}, 2, crashConfigs(""), 1, 1, 1, []string{"s0"}},
-			{[]string{"w1", "s1", "t2", "p"}, 3, crashConfigs(""), 0, 0, 1, []string{"s0"}},
+			// targeted plans first: when the deadline cuts the run short it cuts the broad plans
 			// database switches around a crash: position stored in a db > 0, then the source returns to db 0
 			{[]string{"w1", "s1", "s0"}, 4, crashConfigs("db"), 0, 0, 1, []string{"s0"}},
+			// a stretch inside a black-listed database (nothing of it reaches the target, the
+			// master's keep-alive PINGs still arrive) with a crash in or right after it
+			{[]string{"w1", "sb", "p"}, 4, crashConfigs("db"), 1, 1, 1, []string{"s0"}},
 			// argument shapes (empty string, binary bytes): offsets are byte counts of what was decoded
 			{[]string{"we", "w2", "w1"}, 2, crashConfigs(""), 0, 0, 1, []string{"s0"}},
+			{[]string{"w1", "df", "s1", "s0", "t2", "ts", "p"}, 2, crashConfigs(""), 1, 1, 1, []string{"s0"}},
+			{[]string{"w1", "s1", "t2", "p"}, 3, crashConfigs(""), 0, 0, 1, []string{"s0"}},
 		}
 	case "C07":
 		alpha := []string{"w1", "s1", "t1", "p", "n", "g"}
@@ -147,11 +153,26 @@ func runCrashCheck(t *testing.T, rep *mc.Reporter, check string, oracle func(scn
 		return
 	}
 	idx := 0
+	fam := os.Getenv("VERIF_FAMILY") // "db": only the database-switch plans (C01 includes them as a part)
 	for _, pl := range crashPlans(check, tier) {
 		pl := pl
+		if fam == "db" {
+			isDb := false
+			for _, c := range pl.cfgs {
+				if c.DbMode == "shift" {
+					isDb = true
+				}
+			}
+			if !isDb || pl.bound != 0 {
+				continue
+			}
+		}
 		enumSeqs(pl.alpha, pl.L, func(seq []string) {
 			for _, cfg := range pl.cfgs {
 				idx++
+				if only := os.Getenv("VERIF_CRASH_ONLY"); only != "" && only != strings.Join(seq, " ") {
+					continue // development aid (never set by bin/check): one stream only
+				}
 				if idx%nshards != shard || budget.Expired() {
 					continue
 				}
